@@ -204,7 +204,7 @@ theorem receive_ack_nonempty (r : Radio) (k : Packet) (h : r.Sane) (d : Bytes)
 
 /-- reception never makes a radio ready to transmit: it only acts in RX mode and leaves the
     configuration alone -/
-theorem receive_idle (r : Radio) (k : Packet) (h : r.Idle) : (r.receive k).1.Idle := by
+theorem receive_stays_idle (r : Radio) (k : Packet) (h : r.Idle) : (r.receive k).1.Idle := by
   cases hl : r.listensTo k with
   | none =>
     have : r.receive k = (r, none) := by unfold receive; rw [hl]
@@ -393,7 +393,7 @@ theorem cycle_good (w : World) (s : Nat) (e : TxEntry) (rest : List TxEntry) (hs
         (fun j hj _ => hw j hj) j hj hjs
   · intro j hj hjs
     rw [hlen] at hj
-    exact cycle_others Radio.Idle w s e rest (fun r hr => Radio.receive_idle r _ hr) hi j hj hjs
+    exact cycle_others Radio.Idle w s e rest (fun r hr => Radio.receive_stays_idle r _ hr) hi j hj hjs
   · rw [hself]
     rcases Radio.afterCycle_progress (w.radio s) e rest (w.cycleRes s e) with h | h
     · exact Or.inl h
